@@ -13,11 +13,14 @@ fn seed() -> u64 {
 macro_rules! dispatch {
     ($id:expr, $f:ident, $($arg:expr),*) => {
         match $id {
+            "C01" => $f(&props::c01::prop(), $($arg),*),
             "C02" => $f(&props::c02::prop(), $($arg),*),
             "C03" => $f(&props::c03::prop(), $($arg),*),
             "C04" => $f(&props::c04::prop(), $($arg),*),
             "C05" => $f(&props::c05::prop(), $($arg),*),
             "C06" => $f(&props::c06::prop(), $($arg),*),
+            "C07" => $f(&props::c07::prop(), $($arg),*),
+            "C08" => $f(&props::c08::prop(), $($arg),*),
             other => {
                 eprintln!("unknown property {}", other);
                 2
